@@ -50,9 +50,9 @@ func init() {
 	trusted := []string{"T1 go toolchain, go/types, solvers", "T2 govc VC generator", "A3 sequential semantics for sync/atomic and mutexes", "opaque callees (runCfg, gen*) preserve frame.id/Interpreter.id: justified by the id-writers obligation"}
 	register(&PropDef{
 		ID: "C09", Patterns: []string{"./interp"},
-		Extra:   func(r *Run) { r.idWriters() },
-		Covered: []string{"newFrame/clone/stop contracts", "id inheritance at every newFrame call site", "run-id gate before every exec closure application in both runCfg loops", "writers of frame.id / Interpreter.id enumerated"},
-		Uncov:   []string{"promptness (time) and goroutine exit", "interleavings of stop with a running frame", "blocking channel operations racing f.done (contracts not yet written)"},
+		Extra:   func(r *Run) { r.idWriters(); r.blockingOps() },
+		Covered: []string{"newFrame/clone/stop contracts", "id inheritance at every newFrame call site", "run-id gate before every exec closure application in both runCfg loops", "writers of frame.id / Interpreter.id enumerated", "recv/recv2/send/rangeChan: the blocking reflect.Select races f.done at index 0 and the closure returns nil when it is chosen"},
+		Uncov:   []string{"promptness (time) and goroutine exit", "interleavings of stop with a running frame", "the select statement (_select): its case vector is a slice of struct values filled in a loop, outside the slice model"},
 		Trusted: trusted,
 	})
 	register(&PropDef{
